@@ -24,6 +24,7 @@ import (
 	"github.com/influxdata/influxdb/query"
 	"github.com/influxdata/influxdb/services/meta"
 	"github.com/influxdata/influxdb/tsdb"
+	"github.com/influxdata/influxdb/tsdb/engine/tsm1"
 	"github.com/influxdata/influxql"
 	"verifharness/node"
 )
@@ -428,4 +429,61 @@ func (c *Cluster) Query(i int, stmt string) (string, error) {
 			return sb.String(), errors.New("query timed out")
 		}
 	}
+}
+
+// engines returns the tsm1 engines of every shard on every live node.
+func (c *Cluster) engines() []*tsm1.Engine {
+	var out []*tsm1.Engine
+	for i, nd := range c.Nodes {
+		if c.Down[i] {
+			continue
+		}
+		for _, id := range nd.Store.ShardIDs() {
+			sh := nd.Store.Shard(id)
+			if sh == nil {
+				continue
+			}
+			e, err := sh.Engine()
+			if err != nil {
+				continue
+			}
+			if te, ok := e.(*tsm1.Engine); ok {
+				out = append(out, te)
+			}
+		}
+	}
+	return out
+}
+
+// SnapshotAll writes every shard's cache to a TSM file.
+func (c *Cluster) SnapshotAll() error {
+	for _, e := range c.engines() {
+		if err := e.WriteSnapshot(); err != nil {
+			return err
+		}
+	}
+	return nil
+}
+
+// CompactAll fully compacts the TSM files of every shard that has at least two.
+func (c *Cluster) CompactAll() error {
+	for _, e := range c.engines() {
+		var files []string
+		for _, st := range e.FileStore.Stats() {
+			files = append(files, st.Path)
+		}
+		sort.Strings(files)
+		if len(files) < 2 {
+			continue
+		}
+		e.Compactor.EnableCompactions()
+		out, err := e.Compactor.CompactFull(files)
+		if err != nil {
+			return err
+		}
+		if err := e.FileStore.ReplaceWithCallback(files, out, nil); err != nil {
+			return err
+		}
+	}
+	return nil
 }
